@@ -411,6 +411,8 @@ SPECS += SPECS_FILT; HEADER += HEADER_FILT  # noqa: E702
 from . import srcspecs_rec                     # recurrence.py: constructor, RRULE text, fetch dispatcher
 SPECS += srcspecs_rec.SPECS_REC
 HEADER = srcspecs_rec.HEADER_PRE + HEADER
+from .srcspecs_ical import SPECS_ICAL, HEADER_ICAL  # noqa: E402  (third extension, tag ical: calgebra/ical.py)
+SPECS += SPECS_ICAL; HEADER = HEADER_ICAL + HEADER  # noqa: E702
 
 
 def regenerate(repo: Path, coq_dir: Path):
